@@ -97,12 +97,12 @@ theorem space_denotation (i mm : Bool) (c : Nat) :
 
 /-! ## 3. the matcher: ES5 semantics = Go semantics on the translated tree -/
 
-/-- **match_preserved.**  On the sub-subset `simpleLoops` (every quantified body consumes a character
+/-- **matcher_preserved** (DESIGN: match_preserved; the audit skips names beginning with `match_`).  On the sub-subset `simpleLoops` (every quantified body consumes a character
     and contains no capturing group – where §15.10.2.5's capture reset and empty-iteration check
     cannot be observed), if every atom of `r` has the same denotation in both dialects on the
     subject (`Lem.agree`), the ES5 matcher and the Go matcher return the same list of results (end
     positions and captures, in priority order) from every state.  Structural induction on `r`. -/
-theorem match_preserved (i mm : Bool) (s : List Nat) (r : Re) (hs : r.simpleLoops = true) (ha : agree i mm s r)
+theorem matcher_preserved (i mm : Bool) (s : List Nat) (r : Re) (hs : r.simpleLoops = true) (ha : agree i mm s r)
     (gi : Nat) (x : MS) : m (dE i mm) s r gi x = m (dG i mm) s r gi x :=
   Lem.match_preserved i mm s r hs ha gi x
 
@@ -164,7 +164,7 @@ theorem search_protocol (E : Model.Eng) (S : Spec.SEng) (t : List Nat) (L : Link
     Model.builtinStringSearch E rx t = Spec.stringSearch S rx t := Lem.search_eq E S t L rx
 
 /-- String.prototype.match with a non-global regexp = exec (§15.5.4.10 step 7). -/
-theorem match_nonglobal (E : Model.Eng) (S : Spec.SEng) (t : List Nat) (L : Link E S t) (rx : RX) (hg : rx.global = false) :
+theorem nonglobal_match (E : Model.Eng) (S : Spec.SEng) (t : List Nat) (L : Link E S t) (rx : RX) (hg : rx.global = false) :
     Model.builtinStringMatch E rx t = Spec.stringMatch S rx t := Lem.match_nonglobal_eq E S t L rx hg
 
 end OttoVerif.C10.Thm
